@@ -155,10 +155,10 @@ def _explain(ctx, errs):
     names = []
     for ln in sorted(lines):
         k = min(ln, len(src)) - 1
-        while k >= 0 and not re.match(r"^theorem\s+(\S+)", src[k]):
+        while k >= 0 and not re.match(r"^(?:@\[[^\]]*\]\s*)?theorem\s+(\S+)", src[k]):
             k -= 1
         if k >= 0:
-            n = re.match(r"^theorem\s+(\S+)", src[k]).group(1)
+            n = re.match(r"^(?:@\[[^\]]*\]\s*)?theorem\s+(\S+)", src[k]).group(1)
             if n not in names:
                 names.append(n)
     ctx.extra["c01gen_failed"] = names
